@@ -1436,3 +1436,5 @@ mut('bloom_lower_clamp_dropped', ['C14'], 'AGR-1', patch='bloom_lower_clamp_drop
 mut('filter_reader_ignores_stored_exponent', ['C14'], 'GRD-8', patch='filter_reader_ignores_stored_exponent.diff')
 mut("seek_level_overwritten_by_later_file", ["C10", "C07"], "PAIR-12", patch="seek_level_overwritten_by_later_file.diff")
 mut("previous_output_unregistered_early", ["C10", "C11", "C03"], "ORD-13", patch="previous_output_unregistered_early.diff")
+mut("snapshot_sequence_read_and_registered_separately", ["C03", "C05"], "LCK-", patch="snapshot_sequence_read_and_registered_separately.diff")
+mut("hidden_rule_strict_at_snapshot_boundary", ["C03", "C07"], "GRD-2", patch="hidden_rule_strict_at_snapshot_boundary.diff")
